@@ -194,6 +194,21 @@ def olvl(n, plan, info=JobInfo()):
     return [here, t(n - 1, plan[1:])]
 
 
+@task(memory=1, vcpus=1)
+def otree(kids, tag=0, info=JobInfo()):
+    """A tree of jobs: every node probes its options and calls one child per step (call-time and exported options).
+    tag only keeps the calls apart (options are not part of a call's identity, the probe result depends on them)."""
+    out = [_probe(info)]
+    for step in kids:
+        t = otree
+        if step["opts"]:
+            t = t.options(**step["opts"])
+        if step["exp"]:
+            t = t.export_options(**step["exp"])
+        out.append(t(step["kids"], step["tag"]))
+    return out
+
+
 @task(check_valid="shallow")
 def ctxget_sh():
     return get_context("a.b", 0)
